@@ -389,6 +389,28 @@ func (u *Universe) rewrite(r *rng, ti *TypeInfo, entry *Field, recs []*wrec, st 
 		recs = append(recs[:pos], append(pair, recs[pos:]...)...)
 		st["unknown-mixed-wire-pair"]++
 	}
+	// 4d. 32-bit varint kinds (int32, uint32, sint32, enum; also as key or value of a map entry) carried in a varint with
+	//     bits set above bit 31: parsers narrow to the low 32 bits BEFORE applying zig-zag or the sign, so the meaning stays
+	if r.intn(3) == 0 {
+		for _, x := range recs {
+			if x.typ != protowire.VarintType || r.intn(3) != 0 {
+				continue
+			}
+			k := Kind(-1)
+			switch {
+			case ti != nil && x.f != nil && !x.f.IsMap && x.f.Custom == CNone:
+				k = x.f.Kind
+			case ti == nil && entry != nil && x.num == 1:
+				k = entry.MapKey
+			case ti == nil && entry != nil && x.num == 2 && entry.MapValOK:
+				k = entry.MapVal
+			}
+			if k == KInt32 || k == KUint32 || k == KSint32 || k == KEnum {
+				x.u64 = x.u64&0xffffffff | r.u64()<<32
+				st["widen-32"]++
+			}
+		}
+	}
 	// 5. non-minimal varints
 	if r.intn(3) == 0 {
 		for _, x := range recs {
